@@ -26,11 +26,14 @@ type Config struct {
 	MaxViolations int
 	MapOrders    bool // fork over iteration orders of small maps
 	ForceChoices []int // debugging: replay exactly this choice sequence (one path)
+	ArithFirst bool // arithmetic-heavy harness: queries the incremental core does not decide in 250 ms go straight to cvc5's integer encoding
+	Cvc5Fallback bool // on z3 unknown: decide the query with cvc5 --solve-bv-as-int (linear 64-bit arithmetic)
+	MaxTimerFires int // timer-fire events per path
 	PreemptBound int  // >= 0: explore schedules with at most this many preemptions (no sleep sets); -1: all schedules with sleep sets
 }
 
 func DefaultConfig() Config {
-	return Config{Solver: "z3-new", QueryTimeout: 60000, Unwind: 80, MaxSteps: 2000000, MaxPaths: 5000000, MaxConcretize: 80, MaxViolations: 3, MapOrders: true, PreemptBound: -1}
+	return Config{Solver: "z3-new", QueryTimeout: 60000, Unwind: 80, MaxSteps: 2000000, MaxPaths: 5000000, MaxConcretize: 80, MaxViolations: 3, MapOrders: true, PreemptBound: -1, Cvc5Fallback: true, MaxTimerFires: 6}
 }
 
 type choicePoint struct {
@@ -220,7 +223,29 @@ func (ex *Exec) checkSat(extra *smt.Term) (smt.Result, map[string]uint64) {
 	if extra != nil {
 		as = append(as, extra)
 	}
-	return ex.solver.CheckModel(ex.varTerms(), ex.queryTimeout, as...)
+	ex.solver.NoTactic = ex.cfg.ArithFirst && ex.queryTimeout == 0
+	to := ex.queryTimeout
+	if to == 0 && ex.cfg.Cvc5Fallback {
+		to = 6000 // z3 gets a short budget first; cvc5's integer encoding takes over after that
+	}
+	r, m := ex.solver.CheckModel(ex.varTerms(), to, as...)
+	if r == smt.Unknown && ex.cfg.Cvc5Fallback && ex.queryTimeout == 0 {
+		asserts := append(append([]*smt.Term(nil), ex.pc...), as...)
+		script := smt.Script(asserts, ex.varTerms())
+		r2, m2, d := smt.SolveWithCvc5AsInt(script, ex.cfg.QueryTimeout)
+		ex.solver.Stats.Time += d
+		ex.solver.Stats.Cvc5++
+		if r2 != smt.Unknown {
+			ex.solver.Stats.Unknown--
+			if r2 == smt.Sat {
+				ex.solver.Stats.Sat++
+			} else {
+				ex.solver.Stats.Unsat++
+			}
+			return r2, m2
+		}
+	}
+	return r, m
 }
 
 func (ex *Exec) inconclusive(msg string) {
